@@ -33,7 +33,7 @@ CLAIMED["C05"] = dict(
 
 CLAIMED["C01"] = dict(
     text="Lean 4 invariant proof over the thread life-cycle LTS (one record: finishing thread + any number of joiners / try-joiners / detachers, all interleavings, return and myth_exit both as 'finish v'): start function entered at most once, join reads its value only after the target published FREE_READY2 and the value is the returned/exit value, result written once and stable, the joiner registers itself only after its context was saved and is resumed exactly by the target's publish step. Attribute part: for every garbage memory and every sequence of public setters, attr_init leaves no field that create reads unset and only requested fields differ from the defaults; the pinned attr_init is refuted. Tie: random fork-join trees (7 creation modes incl. attr over poisoned memory and NULL id, 6 reaping modes, nested myth_exit) under the schedule controller; traces accepted step by step by the life-cycle model (terminal check: every thread started once, released once); invocation counters / join values / visibility cells / stack canaries as oracle on the implementation.",
-    note="Trusted: Lean kernel; schedule controller (SC interleavings at point granularity); exactly-once dispatch by the run queues is C02, stack/register contents C03; critical sections of the record's spin lock are atomic in the model (only lock-protected fields inside). Visibility of the child's writes under x86-TSO is argued from FIFO store buffers + the unlock's xchg, not machine-checked. Attr field lists are transcribed by hand and tied by the poisoned-memory creations.",
+    note="Trusted: Lean kernel; schedule controller (SC interleavings at point granularity); exactly-once dispatch by the run queues is C02, stack/register contents C03; critical sections of the record's spin lock are atomic in the model (only lock-protected fields inside). Visibility of the child's writes under x86-TSO is machine-checked on the abstract store-buffer machine of Basic/Tso.lean (C01_visibility_tso: message passing through the FREE_READY2 store, unbounded buffers and workers); that the code issues result-then-status in program order on one worker is read off the source, and hand-over of a migrating thread between workers is C02. Attr field lists are transcribed by hand and tied by the poisoned-memory creations.",
     technique="Lean 4 inductive-invariant proof over an LTS + trace-acceptance correspondence under controlled schedules",
     design="DESIGN.md section 4, C01")
 CLAIMED["C12"] = dict(
